@@ -32,6 +32,21 @@ def genes_of(gt):
     return {"dna": list(d)}
 
 
+def used_decider(dec, g, src):
+    from geneticengine.representations.tree.treebased import TreeBasedRepresentation
+    try:
+        with time_limit(10):
+            tree = TreeBasedRepresentation(g, dec)
+            t = tree.create_genotype(src)
+            tree.mutate(src, t)
+            dec.random_bool()
+            dec.random_int()
+            dec.random_float()
+    except Exception:
+        pass
+    return dec
+
+
 def run_sequence(R, g, rname, mk, seq, refined):
     src = RecordingSource(NativeRandomSource(R.randint(0, 10 ** 6)))
     rep = mk(src)
@@ -90,6 +105,13 @@ def main():
     quick = a.tier == "quick"
     # ... and the raw-source grammars whose context-dependent refinements can make a production fail while it is built
     specs = [s for s in GR.fixed_specs() if s["id"] in SPEC_IDS] + list(GR.RAW)
+    # float refinements much wider than the codon range, next to unrefined bool / int leaves
+    specs.append({"id": "widefloat", "start": "Expr", "classes": [
+        GR._c("Expr", "", abstract=True),
+        GR._c("F", "Expr", [("v", ("ann", ("base", "float"), ("FloatRange", -5000.0, 5000.0))),
+                            ("w", ("ann", ("base", "float"), ("FloatRange", 0.0, 100000.0)))]),
+        GR._c("B", "Expr", [("b", ("base", "bool")), ("i", ("base", "int"))]),
+        GR._c("Op", "Expr", [("l", GR.E), ("r", GR.E)])]})
     k = 0
     for spec in specs:
         b = GR.build_raw(spec) if "source" in spec else GR.build(spec)
@@ -107,6 +129,10 @@ def main():
                 ("sge", lambda s: StructuredGrammaticalEvolutionRepresentation(g, FullDecider(s, g, d), gene_length=16)),
                 ("dsge", lambda s: DynamicStructuredGrammaticalEvolutionRepresentation(g, d)),
                 ("stack", lambda s: StackBasedGGGPRepresentation(g, gene_length=256)),
+                # a decider object that was USED directly (by a tree representation sharing it) before the mapping borrows it
+                ("ge", lambda s: GrammaticalEvolutionRepresentation(g, used_decider(MaxDepthDecider(s, g, d), g, s), gene_length=32)),
+                ("sge", lambda s: StructuredGrammaticalEvolutionRepresentation(g, used_decider(PositionIndependentGrowDecider(s, g, d), g, s),
+                                                                               gene_length=16)),
             ]
             # a fixed multi-step scenario per representation: parents are created and mapped, every pair is
             # crossed over, every parent mutated, and each offspring is mapped twice with other draws in between
